@@ -459,6 +459,61 @@ func checkFit(id string, co *core.Corridor, path [][2]float64, pieces [][4][2]fl
 				worst, worstAt = d, q
 			}
 		}
+		// the neighbourhood of every corridor corner the piece comes close to: a long piece grazing a corner strays outside
+		// over a fraction of a unit only, far below the spacing of the uniform samples. Closest approach by ternary search
+		// between the neighbours of the closest uniform sample, then 129 samples over about +-4 units of arc around it.
+		lo, hi := [2]float64{math.Inf(1), math.Inf(1)}, [2]float64{math.Inf(-1), math.Inf(-1)}
+		for _, q := range pc {
+			for d := 0; d < 2; d++ {
+				lo[d], hi[d] = math.Min(lo[d], q[d]), math.Max(hi[d], q[d])
+			}
+		}
+		for _, rc := range co.Rects {
+			for _, cn := range [][2]float64{{rc[0], rc[1]}, {rc[2], rc[1]}, {rc[0], rc[3]}, {rc[2], rc[3]}} {
+				if cn[0] < lo[0]-1 || cn[0] > hi[0]+1 || cn[1] < lo[1]-1 || cn[1] > hi[1]+1 {
+					continue
+				}
+				dist := func(t float64) float64 {
+					q := model.Bezier(pc, t)
+					return math.Hypot(q[0]-cn[0], q[1]-cn[1])
+				}
+				bk, bd := 0, math.Inf(1)
+				for k := 0; k <= 512; k++ {
+					if d := dist(float64(k) / 512); d < bd {
+						bk, bd = k, d
+					}
+				}
+				if bd > 16+math.Hypot(hi[0]-lo[0], hi[1]-lo[1])/256 {
+					continue // the piece does not come near this corner
+				}
+				a, b := math.Max(0, float64(bk-1)/512), math.Min(1, float64(bk+1)/512)
+				for it := 0; it < 60; it++ {
+					m1, m2 := a+(b-a)/3, b-(b-a)/3
+					if dist(m1) < dist(m2) {
+						b = m2
+					} else {
+						a = m1
+					}
+				}
+				tc := (a + b) / 2
+				q0, q1 := model.Bezier(pc, math.Max(0, tc-1e-6)), model.Bezier(pc, math.Min(1, tc+1e-6))
+				speed := math.Hypot(q1[0]-q0[0], q1[1]-q0[1]) / 2e-6
+				if !(speed > 0) {
+					continue
+				}
+				w := 4 / speed
+				for k := -64; k <= 64; k++ {
+					t := tc + w*float64(k)/64
+					if t < 0 || t > 1 {
+						continue
+					}
+					q := model.Bezier(pc, t)
+					if d := model.PointDist(co.Rects, q); d > worst {
+						worst, worstAt = d, q
+					}
+				}
+			}
+		}
 	}
 	if worst > 0.05 {
 		return violated(id+"/fit/leaves-corridor/"+exitClass(co.Rects, pieces), fmt.Sprintf("the fitted curve reaches %v, %.4g outside the corridor %v; path %v; pieces %v", worstAt, worst, co.Rects, path, pieces))
@@ -476,8 +531,8 @@ func init() {
 		ID:    "C20",
 		Title: "Fitted splines stay inside; root finder sound and complete",
 		Count: counts(60000, 1000000),
-		Rule: "even cases: generated well-formed corridors (as C19), path = real geom.Shortest, real geom.FitSpline with the merged polygon's sides as barriers, exactly as phase 5 does; oracle: pieces start at " +
-			"path[0], end at path[last], join exactly, and an independent De Casteljau evaluation at 513 parameters per piece plus the extrema of x(t), y(t) stays within 0.05 of the union of rectangles; " +
+		Rule: "even cases: generated well-formed corridors (as C19; an eighth of them enlarged x8..x32 with one wall moved to within 0.03..0.5 of the longest segment of the shortest path), path = real geom.Shortest, real geom.FitSpline with the merged polygon's sides as barriers, exactly as phase 5 does; oracle: pieces start at " +
+			"path[0], end at path[last], join exactly, and an independent De Casteljau evaluation at 513 parameters per piece, at the extrema of x(t), y(t) and at 129 parameters around the closest approach to every corridor corner stays within 0.05 of the union of rectangles; " +
 			"odd cases: polynomials built from chosen roots with coefficients expanded in 256-bit arithmetic and rounded once (three real roots, real + complex pair, double and triple roots, quadratics and " +
 			"linears, leading coefficients in {0, +-0.5, +-0.99, +-1.01, +-2, +-10} x 1e-7 around the solver's epsilon, small roots (constant term far below epsilon), whole polynomials scaled down to a leading coefficient of 1..50 x 1e-7); oracle: every robustly real root (odd multiplicity) has a returned value within " +
 			"max(1e-6, 1e3*eps*condition)*max(1,|root|), every returned value is within tolerance of a real root or has a backward error below 1e3*eps; " +
